@@ -392,6 +392,12 @@ def gen_std_modules():
     if "deserialize_with_manifest" not in avbc or m_avbc.group(1) == "None":
         raise ExtractError("cli run.rs::run_avbc_file: manifest argument of unexpected shape")
     avbc_fallback = bool(re.search(r"None\s*=>\s*Manifest::(?:find_)?for_source_file\(\s*path\s*\)|\.or_else\(\s*\|\|\s*Manifest::(?:find_)?for_source_file\(\s*path\s*\)\s*\)", avbc))
+    # since the repair of KF-C11-8: the project manifest next to the file is looked up FIRST and wins; the embedded manifest
+    # (parsed from manifest_bytes) is used only when there is none
+    pf = re.search(r"match\s+Manifest::(?:find_)?for_source_file\(\s*path\s*\)[^{;]*\{\s*Some\(\s*(\w+)\s*\)\s*=>\s*Some\(\s*\1\s*\)\s*,\s*None\s*=>\s*(\w+)\s*,?\s*\}", avbc)
+    avbc_project_wins = bool(pf) and bool(re.search(r"let\s+" + re.escape(pf.group(2)) + r"\s*=\s*match\s+manifest_bytes", avbc)) and not avbc_fallback
+    if avbc_project_wins:
+        avbc_fallback = True          # a file without a manifest of its own is (still) subject to the project manifest
     avbc_embedded = not avbc_fallback and "for_source_file" not in avbc
     ini = strip_comments(rd("driver/src/modules/loader/init.rs"))
     source_project = bool(re.search(r"Manifest::(?:find_)?for_source_file\(\s*entry_file\s*\)", fn_body(ini, "new", "loader/init.rs")))
@@ -479,6 +485,8 @@ def gen_std_modules():
     out.append(f"Definition aasm_route_passes_no_manifest : bool := {b(aasm_none)}.\n")
     out.append(f"Definition aasm_route_uses_project_manifest : bool := {b(aasm_project)}.\n")
     out.append(f"Definition avbc_route_falls_back_to_project_manifest : bool := {b(avbc_fallback)}.\n")
+    out.append("(* run_avbc_file consults the project manifest next to the file first; an embedded manifest only speaks when there is none *)\n")
+    out.append(f"Definition avbc_route_project_manifest_wins : bool := {b(avbc_project_wins)}.\n")
     out.append("(* Manifest::for_source_file looks for `<file name>.toml` next to the entry file (any extension), then for aelys.toml in its directory *)\n")
     out.append(f"Definition per_file_manifest_is_filename_dot_toml : bool := {b(per_file_ok)}.\n")
     out.append(f"Definition directory_manifest_is_aelys_toml : bool := {b(dir_ok)}.\n")
